@@ -26,6 +26,7 @@ pub fn sem_cfg() -> GenCfg {
         inter_nullable: false,
         inter_lists: true,
         inter_indexed: true,
+        odd_names: false,
     }
 }
 
